@@ -22,7 +22,8 @@
             poll       OPoll: deadline = now + timeout                P1 cnt.load (all_done)      P2 ev_queue.pop
                        P3 to_wake.store(fresh Blocker)                P4 ev_queue.pop (re-check)   P4t to_wake.take
                        P5 Blocker::park: token set -> consumed, return; cancelled coroutine -> Cancel raised; else suspend
-                       P5w suspended; resumed by token / timeout / cancel, the token is cleared whatever the reason,
+                       P5w suspended; resumed by token / timeout / cancel (a cancel() takes a parked coroutine also when its cancel
+                           is disabled: owk; the park then returns Canceled, poll ignores it and loops), the token is cleared whatever the reason,
                            yield_back = check_cancel                  P6 deadline check (Instant::now() >= deadline)
             run_ev     Normal event: continue_bottom = run_coroutine(co): the arm runs INLINE on the owner's stack (PRun)
                        until it yields, blocks or ends, then poll returns Ok(ev)
